@@ -136,13 +136,7 @@ package core
 //@   requires cvalid(c)
 //@   assigns c.pos, c.mark
 //@   ensures ccmd(c)
-
-//@ func (*Cursor).BeginningOfLine
-//@   props C06 C01
-//@   terminates
-//@   requires cvalid(c)
-//@   assigns c.pos, c.mark
-//@   ensures ccmd(c)
+//@   ensures [near] c.pos <= clampi(old(c.pos), len(*c.line)) && c.pos >= clampi(old(c.pos), len(*c.line)) - 2
 
 //@ func (*Cursor).EndOfLine
 //@   props C06 C01
@@ -152,11 +146,12 @@ package core
 //@   ensures ccmd(c)
 
 //@ func (*Cursor).EndOfLineAppend
-//@   props C06 C01
+//@   props C06 C01 C16
 //@   terminates
 //@   requires cvalid(c) && 0 <= c.pos && c.pos <= len(*c.line)
 //@   assigns c.pos, c.mark
 //@   ensures cok(c)
+//@   ensures [forward] c.pos >= old(c.pos)
 
 //@ func (*Cursor).SetMark
 //@   props C06 C01
@@ -407,3 +402,20 @@ package core
 //@   requires i != nil
 //@   pure
 //@   ensures result == i.active
+
+//@ func (*Cursor).InsertAt
+//@   props C16 C14 C02 C06 C01
+//@   terminates
+//@   requires cvalid(c) && clean(*c.line) && clean(r)
+//@   assigns *c.line, c.pos, c.mark
+//@   ensures clean(*c.line)
+//@   ensures [insert] *c.line == old(*c.line)[:clampi(old(c.pos), old(len(*c.line)))] + stripz(r) + old(*c.line)[clampi(old(c.pos), old(len(*c.line))):]
+//@   ensures [advance] c.pos == clampi(old(c.pos), old(len(*c.line))) + len(r)
+
+//@ func (*Cursor).BeginningOfLine
+//@   props C06 C01 C16
+//@   terminates
+//@   requires cvalid(c)
+//@   assigns c.pos, c.mark
+//@   ensures ccmd(c)
+//@   ensures [backward] old(0 <= c.pos && c.pos <= len(*c.line)) ==> c.pos <= old(c.pos)
